@@ -44,6 +44,7 @@ var treePlan = []planEntry{
 	{spaces.XDefs, 5, 6},
 	{spaces.XInfo, 4, 5},
 	{spaces.XRefHead, 6, 7},
+	{spaces.XDRuns, 5, 7},
 }
 
 // forPlan runs f over every space of a plan at the tier's length.
